@@ -1449,6 +1449,51 @@ func c17r31(c *Ctx, r *Report) {
 		})
 	}
 	r.floor("returns of an optional numeric value", n, 1)
+	// the attached short form (-mN) converts the number itself: the same check applies (D114: D113 had left it out)
+	optsT := l.Named("fzf", "Options")
+	m := 0
+	eachInstr(fn, func(in ssa.Instruction) {
+		st, ok := in.(*ssa.Store)
+		if !ok {
+			return
+		}
+		f, root := fieldOf(st.Addr)
+		if f == nil || root == nil || !isPtrToNamed(root.Type(), optsT) {
+			return
+		}
+		ex, ok := st.Val.(*ssa.Extract)
+		if !ok || ex.Index != 0 {
+			return
+		}
+		call, ok := ex.Tuple.(*ssa.Call)
+		if !ok || call.Common().StaticCallee() != atoi {
+			return
+		}
+		m++
+		checked := false
+		eachInstr(fn, func(in2 ssa.Instruction) {
+			bo, ok := in2.(*ssa.BinOp)
+			if !ok {
+				return
+			}
+			switch bo.Op {
+			case token.LSS, token.LEQ, token.GTR, token.GEQ:
+			default:
+				return
+			}
+			if _, isK := constIntVal(bo.Y); !isK {
+				return
+			}
+			if bo.X == ssa.Value(ex) {
+				checked = true
+			}
+			if g, _ := loadedField(bo.X); g == f {
+				checked = true
+			}
+		})
+		r.check(checked, fmt.Sprintf("%s:Options.%s converted in place (#%d) is range-checked", relName(fn), f.Name(), m), st.Pos(), fn,
+			"compared with a constant", "Options."+f.Name()+" takes whatever atoi produced, negative numbers included")
+	})
 }
 
 func round11(c *Ctx, r *Report, prop string) {
